@@ -17,7 +17,12 @@ const pkgE2Types = "github.com/wealdtech/go-eth2-types/v2"
 // domainTest recognises bytes.Equal(<req>.Domain[0:4], e2types.<Global>[:]) (either argument order) and returns the
 // request value, the global's name; ok=false otherwise.
 func domainTest(v ssa.Value) (req ssa.Value, global string, ok bool) {
-	call, isCall := v.(*ssa.Call)
+	return domainTestS(v, nil)
+}
+
+// domainTestS is domainTest with callee parameters resolved through sub.
+func domainTestS(v ssa.Value, sub Subst) (req ssa.Value, global string, ok bool) {
+	call, isCall := sub.Res(v).(*ssa.Call)
 	if !isCall {
 		return nil, "", false
 	}
@@ -33,7 +38,7 @@ func domainTest(v ssa.Value) (req ssa.Value, global string, ok bool) {
 				continue
 			}
 		}
-		owner, fld, base := an.FieldOf(sl.X)
+		owner, fld, base := an.FieldOf(sub.Res(sl.X))
 		if owner == nil || fld != "Domain" {
 			continue
 		}
@@ -55,10 +60,14 @@ func domainTest(v ssa.Value) (req ssa.Value, global string, ok bool) {
 
 // domainAtom: atom a states that the request's domain type IS (pos) / IS NOT (!pos) the given global.
 func domainAtom(a *an.Atom, global string, pos bool) bool {
+	return domainAtomS(a, nil, global, pos)
+}
+
+func domainAtomS(a *an.Atom, sub Subst, global string, pos bool) bool {
 	if a == nil || (a.Op != "true" && a.Op != "false") {
 		return false
 	}
-	_, g, ok := domainTest(a.LV)
+	_, g, ok := domainTestS(a.LV, sub)
 	if !ok || g != global {
 		return false
 	}
@@ -81,7 +90,7 @@ func (c *Ctx) DomainRules(prop string) {
 		for _, g := range []string{"DomainBeaconAttester", "DomainBeaconProposer"} {
 			g := g
 			x, path := an.Cut(an.CutQuery{From: an.Entry(o.Fn), Target: func(i ssa.Instruction) bool { return i == site },
-				AcceptEdge: func(b *ssa.BasicBlock, i int, a *an.Atom) bool { return domainAtom(a, g, false) }})
+				AcceptEdge: c.WithSummaries(func(a *an.Atom, sub Subst) bool { return domainAtomS(a, sub, g, false) })})
 			want := "every path to APPROVED in the generic rule passes [domain[0:4] != " + g + "]"
 			if x != nil {
 				c.R.Fail(rule1, Fn(o.Fn)+":"+g, c.Pos(site), "the generic signing rule can approve a request whose domain type is "+g+" (a slashable message signed without its slashing rule)", want, an.PathString(c.Pos, path))
@@ -148,8 +157,32 @@ func (c *Ctx) DomainRules(prop string) {
 		for _, o := range appr {
 			site := o.Site
 			x, path := an.Cut(an.CutQuery{From: an.Entry(o.Fn), Target: func(i ssa.Instruction) bool { return i == site },
-				AcceptEdge: func(b *ssa.BasicBlock, i int, a *an.Atom) bool { return domainAtom(a, rq.global, true) }})
-			want := "every path to APPROVED passes [domain[0:4] == " + rq.global + "]"
+				AcceptEdge: c.WithSummaries(func(a *an.Atom, sub Subst) bool { return domainAtomS(a, sub, rq.global, true) })})
+			// the test may sit in a caller frame of the origin chain, on the very request object that is passed down
+			for fi := len(o.Chain) - 1; x != nil && fi >= 0; fi-- {
+				K := o.Chain[fi]
+				var reqArg ssa.Value
+				for _, a := range K.Common().Args {
+					if pt, ok := a.Type().(*types.Pointer); ok && (types.Identical(pt.Elem(), s.AttReq) || types.Identical(pt.Elem(), s.PropReq)) {
+						reqArg = a
+					}
+				}
+				if reqArg == nil {
+					continue
+				}
+				target := K.(ssa.Instruction)
+				if y, _ := an.Cut(an.CutQuery{From: an.Entry(K.Parent()), Target: func(i ssa.Instruction) bool { return i == target },
+					AcceptEdge: c.WithSummaries(func(a *an.Atom, sub Subst) bool {
+						if !domainAtomS(a, sub, rq.global, true) {
+							return false
+						}
+						base, _, _ := domainTestS(a.LV, sub)
+						return base == reqArg || sameValue(base, reqArg)
+					})}); y == nil {
+					x = nil
+				}
+			}
+			want := "every path to APPROVED passes [domain[0:4] == " + rq.global + "] on the request being approved"
 			if x != nil {
 				c.R.Fail(rq.rule, Fn(o.Fn)+" via "+Fn(rq.entry), c.Pos(site), "the protected endpoint's rule approves a request of another domain type; the generic endpoint refuses nothing about it and the watermark it moves is the wrong one", want, an.PathString(c.Pos, path))
 			} else {
@@ -176,7 +209,7 @@ func (c *Ctx) DomainRules(prop string) {
 			n++
 			target := ci.(ssa.Instruction)
 			x, path := an.Cut(an.CutQuery{From: an.Entry(s.Propose), Target: func(i ssa.Instruction) bool { return i == target },
-				AcceptEdge: func(b *ssa.BasicBlock, i int, a *an.Atom) bool { return domainAtom(a, "DomainBeaconProposer", true) }})
+				AcceptEdge: c.WithSummaries(func(a *an.Atom, sub Subst) bool { return domainAtomS(a, sub, "DomainBeaconProposer", true) })})
 			if x != nil {
 				c.R.Fail(rule, Fn(s.Propose)+":"+CalleeName(ci), c.Pos(ci), "slashing-protection state is read or written for a request whose domain type was not yet checked", "domain test before any fetch/store", an.PathString(c.Pos, path))
 			} else {
